@@ -120,6 +120,11 @@ func runC11(c *Ctx) {
 		runC11Files(c)
 	}
 
+	// ---- stream edges: directives that book nothing (or are refused) at the chronological ends of the journal, with and without --val
+	if !c.Replay || c.OnlyStr == "edges" {
+		runC11Edges(c)
+	}
+
 	// ---- stream 2: partitions, alignment, property monitor
 	n := c.N(4000, 150000)
 	lasts := []int{0, 0, 0, 1, 2, 3, 5, 100, -1}
